@@ -571,6 +571,8 @@ class Machine:
             return tokens(tree(p[op[1]], prune=True))
         if t == "view":
             return view_obs(self, p[op[1]], op[2], op[3], op[4])
+        if t == "dfhist":
+            return dfhist(self, op)
         if t == "clone":
             import pickle
             src = p[op[1]]
@@ -679,6 +681,41 @@ def view_obs(m, h, lo, hi, xs):
             rec[name] = "raised %s: %s" % (type(e).__name__, str(e)[:80])
             out += [1]
     return out
+
+
+def dfhist(m, op):
+    """("dfhist", cols, dtypes, specs, rows, extra): make_histograms on the frame of the rows for the
+    feature ":".join(cols) with explicit bin_specs; pushes the histogram"""
+    from harness import dfspec
+    from histogrammar.dfinterface.make_histograms import make_histograms
+    _, cols, dtypes, specs, rows, extra = op
+    key = ":".join(cols)
+    allcols = extra.get("columns", cols)
+    df = dfspec.frame(rows, allcols, dtypes)
+    before = df.copy(deep=True)
+    kw = {"features": [key], "bin_specs": {key: specs[0] if len(cols) == 1 else specs}}
+    if extra.get("time_axis"):
+        kw.update(time_axis=extra["time_axis"], time_width=extra["time_width"], time_offset=extra["time_offset"])
+        kw["bin_specs"] = {key: specs} if len(cols) > 1 else {key: specs[0]}
+    if not hasattr(m, "dflog"):
+        m.dflog = []
+    rec = {"rows": len(rows), "key": key}
+    m.dflog.append(rec)
+    try:
+        import io
+        import contextlib
+        with contextlib.redirect_stderr(io.StringIO()):
+            hists = make_histograms(df, **kw)
+        h = hists[key]
+    except Exception as e:  # noqa: BLE001
+        m.exc.append(exc_class(e))
+        rec["raised"] = "%s: %s" % (type(e).__name__, str(e)[:120])
+        m.pool.append(hg.Count())
+        return [1]
+    rec["entries"] = float(h.entries)
+    rec["unmodified"] = bool(df.equals(before))
+    m.pool.append(h)
+    return [0] + tokens(tree(h, prune=True))
 
 
 def columns(rows):
@@ -930,4 +967,20 @@ class FcnMachine(Machine):
             except Exception as e:  # noqa: BLE001
                 self.exc.append(exc_class(e))
                 return [2]
+        return super().step(op)
+
+
+class DfMachine(Machine):
+    """results of + are observed up to the empty bins the vectorised fills leave behind"""
+
+    def step(self, op):
+        if op[0] == "add":
+            try:
+                c = self.pool[op[1]] + self.pool[op[2]]
+            except Exception as e:  # noqa: BLE001
+                self.exc.append(exc_class(e))
+                self.pool.append(hg.Count())
+                return [1]
+            self.pool.append(c)
+            return [0] + tokens(tree(c, prune=True))
         return super().step(op)
